@@ -96,6 +96,23 @@ def printing_prims(terms, seen_args):
             return str(shown(val(t[2], env)))
         if f == ".replace" and len(t) == 5:
             return val(t[2], env).replace(val(t[3], env), val(t[4], env))
+        if f in (".startswith", ".endswith") and len(t) == 4:
+            a_, b_ = val(t[2], env), val(t[3], env)
+            if isinstance(a_, str) and isinstance(b_, str):
+                return a_.startswith(b_) if f == ".startswith" else a_.endswith(b_)
+        if f in (".strip", ".lstrip", ".rstrip", ".lower", ".upper") and len(t) == 3:
+            a_ = val(t[2], env)
+            if isinstance(a_, str):
+                return getattr(a_, f[1:])()
+        if f == "concat" and len(t) == 4:
+            a_, b_ = val(t[2], env), val(t[3], env)
+            if isinstance(a_, str) and isinstance(b_, str):
+                return a_ + b_
+        if f == "slice" and len(t) == 6:
+            a_ = val(t[2], env)
+            lo, hi, st = (None if x == T.NONE else int(val(x, env)) for x in t[3:6])
+            if isinstance(a_, (str, tuple)):
+                return a_[lo:hi:st]
         if f == ".format":
             tpl = val(t[2], env)
             pos, kw = [], {}
@@ -161,6 +178,13 @@ def printed_forms(repo, rep):
                 for y in x[1:]:
                     if y[0] == "num" and abs(y[1]) not in (0, 1, 60, 360) and abs(y[1]) >= F(1, 1000):
                         extra.add(abs(F(y[1])))
+        # numbers the printed text is compared with (startswith("24"), == "60", ...): the fields are given those values too
+        for x in T.walk(t):
+            if x[0] == "str":
+                for num_ in re.findall(r"\d+(?:\.\d+)?", x[1]):
+                    v_ = F(num_)
+                    if v_ not in (0, 60, 360) and F(1, 1000) <= v_ < 360 and "{" not in x[1]:
+                        extra.add(v_)
         if len(extra) > 6:
             rep.inconcl("R-CARRY", site, "the printing term compares the fields with %d further constants; the class table is not built" % len(extra))
             continue
